@@ -159,10 +159,34 @@ def gen_whole_then_deeper(rng, tier):
                "seed": rng.randrange(1 << 30)}
 
 
+def gen_long_arrays(rng, tier):
+    """arrays of ten and more elements: ranks among two-digit indices (selected singly, by slice, by wildcard, nested)"""
+    def q(*segs):
+        return {"first": {"fake": False, "segs": list(segs)}, "rest": []}
+    cells = ["c%d" % i for i in range(12)]
+    rows = [[i, [i * 10 + j for j in range(11)]] for i in range(13)]
+    for style in STYLES:
+        for doc, sels in (
+            ({"cells": cells}, [[q(["list", ["name", "cells"]], ["list", ["idx", 2]]), q(["list", ["name", "cells"]], ["list", ["idx", 10]])],
+                                [q(["list", ["name", "cells"]], ["list", ["slice", 8, None, None]])],
+                                [q(["list", ["name", "cells"]], ["sel", "wild"])],
+                                [q(["list", ["name", "cells"]], ["list", ["idx", 1], ["idx", 9], ["idx", -1]])],
+                                [q(["list", ["name", "cells"]], ["list", ["slice", 9, 11, None]])],
+                                [q(["list", ["name", "cells"]], ["list", ["slice", None, None, 5]])]]),
+            (cells, [[q(["list", ["idx", 3]]), q(["list", ["idx", 11]])], [q(["list", ["slice", 7, None, 2]])], [q(["sel", "wild"])]]),
+            ({"rows": rows}, [[q(["list", ["name", "rows"]], ["list", ["idx", 2], ["idx", 10], ["idx", 12]], ["list", ["idx", 1]], ["list", ["idx", 9], ["idx", 10]])],
+                              [q(["list", ["name", "rows"]], ["list", ["slice", 9, None, None]], ["list", ["idx", 0]])],
+                              [q(["list", ["name", "rows"]], ["sel", "wild"], ["list", ["idx", 1]], ["list", ["slice", 8, None, None]])]]),
+        ):
+            for rels in sels:
+                yield {"style": style, "match": q(), "rels": rels, "doc": doc, "seed": 17}
+
+
 _gen_main = gen
 
 
 def gen(rng, tier):      # noqa: F811
+    yield from gen_long_arrays(rng, tier)
     yield from _gen_main(rng, tier)
     yield from gen_keys_only(rng, tier)
     yield from gen_whole_then_deeper(rng, tier)
